@@ -1511,3 +1511,8 @@ M("C07", "decoder_alignment: aligner runs over everything buffered (seed C07-8 c
 M("C13", "fsg reader: vocabulary table folds case (seed C13-7 core)", "src/fsg_model.c", "vocab = hash_table_new(32, FALSE);", "vocab = hash_table_new(32, HASH_CASE_NO);", "TABLE.W2-transition-line")
 M("C03", "fsg_search_hyp: kept string returned once final (seed C03-7 core)", "src/fsg_search.c", "    bp = bpidx;\n    len = 0;\n    while (bp > 0) {", "    if (fsgs->final && search->hyp_str != NULL)\n        return search->hyp_str;\n    bp = bpidx;\n    len = 0;\n    while (bp > 0) {", "PROV.S8-no-stale-result")
 M("C17", "mdef: senone sequence size tested through a 32-bit product (seed C17-8 core)", "src/bin_mdef.c", "    if (*sseq_size < 0 || m->n_emit_state > *sseq_size / m->n_sseq) {", "    if (*sseq_size < 0 || m->n_emit_state * m->n_sseq > *sseq_size) {", "TAINT.wide-product")
+
+M("C02", "nearest: word positions tried in rotation (seed C02-8 core)", "src/bin_mdef.c", "    for (tmppos = 0; tmppos < N_WORD_POSN; tmppos++) {\n        if (tmppos != pos) {\n            p = bin_mdef_phone_id(m, b, l, r, tmppos);", "    for (tmppos = 0; tmppos < N_WORD_POSN; tmppos++) {\n        if (tmppos != pos) {\n            p = bin_mdef_phone_id(m, b, l, r, (word_posn_t)((pos + tmppos) % N_WORD_POSN));", "ORDER.backoff")
+M("C01", "lextree: root table shared by all states (seed C01-8 core)", "src/fsg_lextree.c", "    fsg_glist_linklist_t *glist = NULL;\n\n    root = NULL;", "    static fsg_glist_linklist_t *glist;\n\n    root = NULL;", "SCOPE.O15-roots-per-state")
+M("C09", "vector_grow_one: size clamped instead of refused (seed C09-7 core)", "src/ps_alignment.c", "    if (newsize > 0xffff)\n        return NULL;", "    if (newsize > 0xffff)\n        newsize = 0xffff;", "WIDTH.vector")
+M("C09", "benign: vectors grow geometrically, still refusing at the limit", "src/ps_alignment.c", "    newsize += VECTOR_GROW;\n    if (newsize > 0xffff)\n        return NULL;", "    newsize = *n_alloc ? 2 * *n_alloc : VECTOR_GROW;\n    if (newsize > 0xffff)\n        return NULL;", kind="benign")
